@@ -34,6 +34,9 @@ impl Monitor for C06 {
             ("checks_after_truncate", tier.pick(20_000, 400_000)),
             ("checks_after_delete_queue", tier.pick(1_000, 20_000)),
             ("checks_after_open", tier.pick(3_000, 60_000)),
+            ("checks_after_open_of_a_call_boundary_crash_image", tier.pick(10_000, 200_000)),
+            ("checks_after_open_of_a_crash_image_with_buffered_tail_lost", tier.pick(1_000, 20_000)),
+            ("checks_after_open_of_a_crash_image_right_after_roll_over", tier.pick(1_000, 20_000)),
             ("checks_where_files_were_unlinked", tier.pick(200, 4_000)),
             ("checks_where_nothing_could_be_unlinked", tier.pick(50, 1_000)),
             ("checks_with_3_or_more_files_present", tier.pick(1_000, 20_000)),
@@ -41,7 +44,7 @@ impl Monitor for C06 {
         ]
     }
     fn rule(&self) -> String {
-        "case = one generated multi-queue history (gc/idle/delete/mixed/huge profiles, any persist policy, restarts); evaluation = one check after a truncate / delete_queue / open: (1) the WAL files present are a contiguous run of numbers ending at the file most recently written, (2) none is older than min(file that was current when the oldest retained record's append began, file that was current when this call began), (3) the file of every retained record is present, (4) disk_used_bytes == sum of file sizes; 'current file' is read off the syscall trace; distinct_nontrivial = distinct (present file set, oldest pinned file, number of retained records) among checks with >= 2 files present or an unlink in the call".into()
+        "case = one generated multi-queue history (gc/idle/delete/mixed/huge profiles, any persist policy, restarts); evaluation = one check after a truncate / delete_queue / open: (1) the WAL files present are a contiguous run of numbers ending at the file most recently written, (2) none is older than min(file that was current when the oldest retained record's append began, file that was current when this call began), (3) the file of every retained record is present, (4) disk_used_bytes == sum of file sizes; 'current file' is read off the syscall trace; one call boundary in twelve, and every append that rolled over (with the newest file put back to zeros: the crash point right after it was created and sized), is also copied as a process-crash image (under lazy policies without the still-buffered tail) and opened in a side directory, where the same checks apply to the recovered log; distinct_nontrivial = distinct (present file set, oldest pinned file, number of retained records) among checks with >= 2 files present or an unlink in the call".into()
     }
     fn assumptions(&self) -> Vec<String> {
         vec!["the file current at a point in time = target of the most recent traced create/write on a WAL file; under lazy policies the harness issues persist(Flush) right after every call so that the trace is exact at call boundaries (this does not influence the library's GC decisions)".into()]
@@ -72,6 +75,10 @@ impl Monitor for C06 {
         let mut cur: u64 = list_wal_files(&dir).last().map(|f| f.0).unwrap_or(0);
         // born[(queue, position)] = file current when the append call began
         let mut born: HashMap<(String, u64), u64> = HashMap::new();
+        // same, keyed by content as well and never pruned: a crash image may bring back records
+        // that were evicted live (lazy policies)
+        let mut born_all: HashMap<(String, u64, u64), u64> = HashMap::new();
+        let side = ctx.scratch.sub("c06-side");
         for _ in 0..nops {
             let cur_begin = cur;
             let before_unlinks = d.io.unlinks;
@@ -84,6 +91,12 @@ impl Monitor for C06 {
             // trace (and therefore "current file") is exact at every call boundary; this
             // changes nothing about the library's GC decisions
             let mut events = st.events.clone();
+            // a process crash right now would leave this (taken before the drain below, so that
+            // under lazy policies the still buffered tail is really missing)
+            let mut crash_images: Vec<(&'static str, crate::image::Image)> = Vec::new();
+            if !matches!(st.op, Op::Restart) && rng.chance(1, 12) {
+                crash_images.push(("call-boundary", crate::image::Image::from_dir(&dir)));
+            }
             if !policy.always() {
                 let t = d.apply(Op::Persist { fsync: false });
                 events.extend(t.events);
@@ -106,14 +119,78 @@ impl Monitor for C06 {
             match (&st.op, &st.outcome) {
                 (Op::Append { q, lens, .. }, Outcome::Appended { last: Some(last), .. }) => {
                     let first = last + 1 - lens.len() as u64;
-                    for p in first..=*last {
+                    for (i, p) in (first..=*last).enumerate() {
                         born.insert((q.clone(), p), cur_begin);
+                        let pid = crate::ops::Pid { op: st.k as u32, idx: i as u32, len: lens[i] as u32 };
+                        born_all.insert((q.clone(), p, crate::ops::payload_hash(key, pid)), cur_begin);
                     }
                 }
                 (Op::Delete { q }, Outcome::Deleted { .. }) => {
                     born.retain(|k, _| &k.0 != q);
                 }
                 _ => {}
+            }
+            // "(and after open)": open the process-crash image of this call boundary in a side
+            // directory (what a crash right now would leave: under lazy policies the still
+            // buffered tail is missing) and apply the same bound to the recovered log
+            if matches!(st.op, Op::Append { .. }) && cur > cur_begin {
+                // the append rolled over: a crash right after the newest file was created and
+                // sized leaves every older file complete (roll-over flushes them) and the
+                // newest one all zeros
+                let mut img = crate::image::Image::from_dir(&dir);
+                let newest = img.files.keys().filter(|n| wal_number(n).is_some()).max().cloned();
+                if let Some(n) = newest {
+                    for b in img.files.get_mut(&n).unwrap().iter_mut() {
+                        *b = 0;
+                    }
+                    crash_images.push(("right-after-roll-over-sized-the-new-file", img));
+                }
+            }
+            for (img_kind, img) in crash_images {
+                let before: Vec<u64> = img.files.keys().filter_map(|n| wal_number(n)).collect();
+                img.materialize(&side);
+                if let Ok(s2) = crate::ops::Sut::open(&side, crate::ops::Policy::AlwaysFlush, key, false) {
+                    if let Ok(snap2) = Snapshot::take(s2.log()) {
+                        let mut min_born2: Option<u64> = None;
+                        let mut unknown = false;
+                        for (q, qs) in &snap2.queues {
+                            for r in &qs.recs {
+                                match born_all.get(&(q.clone(), r.pos, r.hash)) {
+                                    Some(b) => min_born2 = Some(min_born2.map(|m: u64| m.min(*b)).unwrap_or(*b)),
+                                    None => unknown = true,
+                                }
+                            }
+                        }
+                        let present2 = list_wal_files(&side);
+                        let nums2: Vec<u64> = present2.iter().map(|f| f.0).collect();
+                        let disk2 = s2.log().resource_usage().disk_used_bytes as u64;
+                        acc.eval();
+                        acc.count("checks_after_open_of_a_call_boundary_crash_image");
+                        if img_kind != "call-boundary" {
+                            acc.count("checks_after_open_of_a_crash_image_right_after_roll_over");
+                        } else if !policy.always() {
+                            acc.count("checks_after_open_of_a_crash_image_with_buffered_tail_lost");
+                        }
+                        let highest_before = before.iter().max().copied().unwrap_or(0);
+                        let detail2 = |what: &str| json!({"history": d.history_json(400), "crash_image_taken_after_call": st.op.to_json(), "crash_image_kind": img_kind, "violated": what, "wal_files_in_crash_image": before, "wal_files_after_open": nums2, "oldest_retained_record_born_in_file": min_born2, "disk_used_bytes": disk2, "policy": policy.name()});
+                        let contiguous2 = nums2.windows(2).all(|w| w[1] == w[0] + 1);
+                        if nums2.is_empty() || !contiguous2 {
+                            acc.violation("C06/files-not-a-contiguous-run/after-open-of-crash-image", case, detail2("(1) contiguous run"));
+                            return;
+                        }
+                        if disk2 != present2.iter().map(|f| f.1).sum::<u64>() {
+                            acc.violation("C06/disk_used_bytes-mismatch/after-open-of-crash-image", case, detail2("(4) disk accounting"));
+                            return;
+                        }
+                        if !unknown {
+                            let bound = min_born2.map(|b| b.min(highest_before)).unwrap_or(highest_before);
+                            if nums2[0] < bound {
+                                acc.violation("C06/stale-file-kept/after-open-of-crash-image", case, detail2(&format!("(2) oldest present file {} is older than the bound {}", nums2[0], bound)));
+                                return;
+                            }
+                        }
+                    }
+                }
             }
             let kind = match (&st.op, &st.outcome) {
                 (Op::Truncate { .. }, Outcome::Truncated { .. }) => "truncate",
